@@ -118,9 +118,9 @@ Qed.
 Theorem bridge_format : forall (ops : fops) (x err : FT ops),
   gen_format ops x err = format ops x err.
 Proof.
-  intros ops x err. unfold gen_format, format, x_exponent_of, hide_of.
+  intros ops x err. unfold gen_format, format, format_with, x_exponent_of, x_exponent_old, hide_of.
   rewrite !exponent_field.
-  set (k := Z.max (dexp 6 (fmag (fval ops x))) (dexp 6 (fmag (fval ops err)) + 1)).
+  set (k := Z.min (Z.max (dexp 6 (fmag (fval ops x))) (dexp 6 (fmag (fval ops err)) + 1)) 308).
   change (- (1)) with (-1).
   destruct (((k =? 0) || (k =? -1))
             || ((k =? 1) && fl_lt (fval ops err) (fl_abs (fval ops (fdiv ops x (fofZ ops 10)))))).
